@@ -33,9 +33,15 @@ def find_value_(
         scheduler: abc.SchedulerBase | None = None,
     ) -> abc.DisposableBase:
         index = 0
+        found = False
 
         def on_next(x: _T) -> None:
-            nonlocal index
+            nonlocal index, found
+            if found:
+                # an element that arrives while the match is being delivered
+                # (re-entrant on_next)
+                return
+
             should_run = False
             try:
                 should_run = predicate(x, index, source)
@@ -44,6 +50,7 @@ def find_value_(
                 return
 
             if should_run:
+                found = True
                 observer.on_next(index if yield_index else x)
                 observer.on_completed()
             else:
